@@ -16,7 +16,7 @@ theorem DomOrder_unpack {d m : Xml} {k : Kind} (h : DomOrder ⟨d, m, k⟩ = tru
     ∃ rc base ids, rcOf d = some rc ∧
       completed d = false ∧ storiesExc rc = none ∧ shaped k m = true ∧
       m.find k.baseTag = some base ∧ containerIds k (namedOf k base) d = some ids ∧
-      (∀ x ∈ ids, x.isSome = true) ∧ ids.Nodup ∧ resolves k (namedOf k base) ids = true := by
+      SomeNodup ids ∧ resolves k (namedOf k base) ids = true := by
   unfold DomOrder at h
   simp only [Bool.and_eq_true] at h
   obtain ⟨⟨⟨⟨⟨hwf, hc⟩, htim⟩, hsh⟩, _⟩, hrest⟩ := h
@@ -34,7 +34,7 @@ theorem DomOrder_unpack {d m : Xml} {k : Kind} (h : DomOrder ⟨d, m, k⟩ = tru
       | some ids =>
         simp only [hci, Bool.and_eq_true, List.all_eq_true, decide_eq_true_eq] at hrest
         refine ⟨rc, base, ids, rfl, by simpa using hc, by simpa using htim, hsh, rfl, hci,
-          hrest.1.1, hrest.1.2, hrest.2⟩
+          hrest.1, hrest.2⟩
 
 theorem shaped_mid {k : Kind} {m : Xml} (h : shaped k m = true) : msgIdExc m = none := by
   unfold shaped at h
@@ -72,14 +72,14 @@ theorem story_core (k : Kind) (rc base : Xml) (g : Good "story" rc.kids) (hk : k
 theorem order_story (i : MergeInput) (h : DomOrder i = true) (hs : i.k.isStoryLevel = true) :
     holdsOrder i (addK i.k i.d i.m) = true := by
   obtain ⟨d, m, k⟩ := i
-  obtain ⟨rc, base, ids, hrc, hc, htim, hsh, hb, hci, hsome, hnd, hres⟩ := DomOrder_unpack h
+  obtain ⟨rc, base, ids, hrc, hc, htim, hsh, hb, hci, hnd, hres⟩ := DomOrder_unpack h
   simp only at hs ⊢
   have hids : keysOf "story" rc.kids = ids := by
     unfold containerIds at hci
     simp only [hrc, hs, if_true] at hci
     exact Option.some.inj hci
   subst hids
-  have g : Good "story" rc.kids := ⟨hnd, hsome⟩
+  have g : Good "story" rc.kids := ⟨hnd⟩
   have hed : k.editsRc = true := by cases k <;> first | rfl | exact absurd hs (by decide)
   rw [addK_editsRc k d m rc base hed hc hrc hb, shaped_mid hsh]
   obtain ⟨e1, e2, _⟩ := story_core k rc base g hs htim (by intro e; subst e; exact shaped_send hsh hb) hres
@@ -97,7 +97,7 @@ theorem shaped_movemultiple {m base : Xml} (h : shaped .ItemMoveMultiple m = tru
 theorem order_item (i : MergeInput) (h : DomOrder i = true) (hs : i.k.isItemLevel = true) :
     holdsOrder i (addK i.k i.d i.m) = true := by
   obtain ⟨d, m, k⟩ := i
-  obtain ⟨rc, base, ids, hrc, hc, htim, hsh, hb, hci, hsome, hnd, hres⟩ := DomOrder_unpack h
+  obtain ⟨rc, base, ids, hrc, hc, htim, hsh, hb, hci, hnd, hres⟩ := DomOrder_unpack h
   simp only at hs ⊢
   have hns : k.isStoryLevel = false := by cases k <;> first | rfl | exact absurd hs (by decide)
   have hed : k.editsRc = true := by cases k <;> first | rfl | exact absurd hs (by decide)
@@ -122,7 +122,7 @@ theorem order_item (i : MergeInput) (h : DomOrder i = true) (hs : i.k.isItemLeve
         obtain ⟨_, rfl⟩ := List.getElem?_eq_some_iff.mp hsj
         simp only [isChild, Bool.and_eq_true] at hp
         simpa using hp.1
-      have g : Good "item" s.kids := ⟨hnd, hsome⟩
+      have g : Good "item" s.kids := ⟨hnd⟩
       obtain ⟨e1, e2, e3⟩ := item_core k base s.kids g hs
         (by intro e; subst e; exact shaped_movemultiple hsh hb) hres
       rw [addK_editsRc k d m rc base hed hc hrc hb, shaped_mid hsh,
